@@ -77,6 +77,10 @@ DEFAULTS = {
     "store32Shifts": [0, 8, 16, 24],
     "store32Mask": 0xFF,
     "deriveCounterTerms": [(0, 0), (1, 8), (2, 16), (3, 24)],
+    # how ChaCha20::apply prepares the output vector: 0 = `output.resize(n)` (old contents survive, which is what makes
+    # in-place use work), 1 = re-initialised (`assign(n, v)` / `clear(); resize(n)`) with fill byte outputFill
+    "outputPrep": 0,
+    "outputFill": 0,
 }
 
 _KEYWORDS = {"for", "while", "if", "switch", "catch", "return", "sizeof", "static_cast", "decltype"}
@@ -345,6 +349,39 @@ def extract_tables() -> tuple[dict, list[str]]:
         attempt("qrIndices", qr_indices)
         attempt("stateInit", state_init)
 
+    def output_prep():
+        # the public transform: a function taking a span of const bytes and a vector of bytes by reference
+        cands = [f for f in fns if re.search(r"std::span<\s*const\s+std::uint8_t\s*>", f["params"])
+                 and re.search(r"std::vector<\s*std::uint8_t\s*>\s*&", f["params"])]
+        if len(cands) != 1:
+            raise ValueError(f"{len(cands)} functions (span<const uint8_t>, vector<uint8_t>&)")
+        f = cands[0]
+        inp = outp = None
+        for p_ in f["params"].split(","):
+            nm = re.search(r"(" + _ID + r")\s*$", p_.strip())
+            if nm and "std::span" in p_:
+                inp = nm.group(1)
+            elif nm and "std::vector" in p_:
+                outp = nm.group(1)
+        if not inp or not outp:
+            raise ValueError("parameter names not recognised")
+        head = re.split(r"\b(?:while|for)\s*\(", f["body"])[0]
+        stmts = [x.strip() for x in head.split(";") if re.search(r"\b" + re.escape(outp) + r"\b", x)]
+        size = re.escape(inp) + r"\.size\(\)"
+        o = re.escape(outp)
+        if len(stmts) == 1 and re.fullmatch(o + r"\.resize\(\s*" + size + r"\s*\)", stmts[0]):
+            return {"outputPrep": 0, "outputFill": 0}
+        if len(stmts) == 1 and (m := re.fullmatch(o + r"\.assign\(\s*" + size + r"\s*,\s*(.+)\)", stmts[0])):
+            return {"outputPrep": 1, "outputFill": _int(m.group(1)) & 0xFF}
+        if len(stmts) == 2 and re.fullmatch(o + r"\.clear\(\s*\)", stmts[0]):
+            if re.fullmatch(o + r"\.resize\(\s*" + size + r"\s*\)", stmts[1]):
+                return {"outputPrep": 1, "outputFill": 0}
+            if (m := re.fullmatch(o + r"\.resize\(\s*" + size + r"\s*,\s*(.+)\)", stmts[1])):
+                return {"outputPrep": 1, "outputFill": _int(m.group(1)) & 0xFF}
+        raise ValueError(f"output preparation not recognised: {stmts!r}")
+
+    attempt("outputPrep", output_prep)
+
     def derive_terms():
         msrc = _strip_comments((REPO / MANAGER).read_text(errors="replace"))
         hits = [t[1] for f in _functions(msrc) if "ChunkId" in f["params"] and len(_param_names(f["params"])) == 1
@@ -394,6 +431,10 @@ def extract():
         f"def store32Mask : UInt32 := {hex(v['store32Mask'] & MASK32)}",
         "/-- `CryptoManager.cpp: derive_counter`: OR of `chunk_id[i] << s` for these `(i, s)` -/",
         f"def deriveCounterTerms : List (Nat × Nat) := {_lean_list(v['deriveCounterTerms'], _tuple)}",
+        "/-- how `ChaCha20::apply` prepares `output`: 0 = `output.resize(input.size())` (contents kept),",
+        "    1 = re-initialised (`assign(n, v)` or `clear(); resize(n[, v])`) with fill byte `outputFill` -/",
+        f"def outputPrep : Nat := {v['outputPrep']}",
+        f"def outputFill : UInt8 := {v['outputFill']}",
     ])
     write_generated(PID, body)
     return gaps
